@@ -97,6 +97,9 @@ pub fn judge(x: &Vec<u8>, st: &mut Stats) -> Verdict {
             if let Ok(hs) = v1::Header::try_from(s) {
                 views(raw, &hs, "from-str")?;
             }
+            if let Ok(hf) = s.parse::<v1::Header<'static>>() {
+                views(raw, &hf, "FromStr")?;
+            }
         }
         Ok(())
     }) {
